@@ -919,7 +919,7 @@ impl<T: Send> Stream for AsyncReceiver<T> {
       return Poll::Ready(None);
     }
 
-    let state_ptr = &this.state as *const AtomicU8;
+    let state_ptr = &*this.state as *const AtomicU8;
     let still_linked = this.is_registered;
     this.is_registered = true;
 
